@@ -82,7 +82,7 @@ func run(t *testing.T, body string) string {
 		t.Fatalf("build: %v\n%s", err, out)
 	}
 
-	out, err := exec.Command(bin, "-repo", dir, "-file", "p/box.go", "-type", "box", "-module", "example.com/m").CombinedOutput()
+	out, err := exec.Command(bin, "-repo", dir, "-file", "p/box.go", "-type", "box", "-module", "example.com/m", "-ctor", "newBox").CombinedOutput()
 	if err != nil {
 		t.Fatalf("skel: %v\n%s", err, out)
 	}
@@ -258,5 +258,26 @@ func (b *box) Put(k int) {
 		if !strings.Contains(out, "EUnsupported") {
 			t.Errorf("%s: expected EUnsupported in\n%s", name, out)
 		}
+	}
+}
+
+// the constructor must not be wrapped on its way into the application
+func TestCtorWiring(t *testing.T) {
+	ok := run(t, `
+func newBox() *box { return &box{} }
+func (b *box) M() { b.mu.Lock(); b.known = nil; b.mu.Unlock() }
+`)
+	if strings.Contains(ok, "EUnsupported") {
+		t.Errorf("plain constructor must be accepted:\n%s", ok)
+	}
+
+	bad := run(t, `
+func newBox() *box { return &box{} }
+type cached struct{ inner *box }
+func newCached() *cached { return &cached{inner: newBox()} }
+func (b *box) M() { b.mu.Lock(); b.known = nil; b.mu.Unlock() }
+`)
+	if !strings.Contains(bad, "EUnsupported") {
+		t.Errorf("decorated constructor must be refused:\n%s", bad)
 	}
 }
